@@ -838,7 +838,7 @@ def correspond(ctx):
             for j in range(n_cmp):
                 g = got_l[j] if j < len(got_l) else "<missing>"
                 knd = kinds[j] if j < len(kinds) else "?"
-                corr.case((key[0], knd), nontrivial=not knd.startswith("get") or True,
+                corr.case((key[0], key[1], knd, want[j][:160]), nontrivial=True,
                           sample={"class": key[0], "op": knd, "impl": want[j][:160]} if len(corr.samples) < 6 and knd.startswith("set:") else None)
                 corr.hit("op:" + knd.split(":")[0])
                 if knd.startswith("set"):
